@@ -149,7 +149,7 @@ func (p *Path) constVal(c *ssa.Const) Value {
 	}
 	v := p.constVal1(c)
 	switch v.(type) {
-	case *Term, Str, Float:
+	case *Term, Str, Float, SFloat:
 		p.w.consts[c] = v
 	}
 	return v
